@@ -132,8 +132,44 @@ def sweep(ids=None):
     return rows
 
 
+def record(names=None):
+    """verify + official sweep for each kept seeded change; persist into meta.json and seeded/RESULTS.md"""
+    base = os.path.join(HERE, 'seeded')
+    lines = ['# Seeded changes and which checks catch them', '',
+             'Each change was produced by an independent sub-agent from the property text alone, re-confirmed here',
+             '(`tools_seeded.py verify`: applies, 2129-test suite unchanged, demo fails with / passes without) and run',
+             'through the official flow (`git -C /repo apply`, quick check of its property over seeds 0..2, `git -C /repo checkout -- .`).', '',
+             '| id | property | what it needs to manifest | confirmed | quick check verdict | first signature |', '|---|---|---|---|---|---|']
+    for name in sorted(os.listdir(base)):
+        d = os.path.join(base, name)
+        if not os.path.exists(os.path.join(d, 'patch.diff')):
+            continue
+        if names and name not in names:
+            meta = json.load(open(os.path.join(d, 'meta.json')))
+        else:
+            meta = json.load(open(os.path.join(d, 'meta.json')))
+            v = verify(d)
+            rows = sweep([name])
+            pid = meta['property']
+            env_note = 'git -C /repo apply patch.diff; ./check %s --tier quick (seeds 0..2); git -C /repo checkout -- .' % pid
+            meta['vt'] = {'confirmed': v['confirmed'], 'suite_summary': v['suite_summary'], 'demo_clean_rc': v['demo_clean_rc'],
+                          'demo_mutant_rc': v['demo_mutant_rc'], 'ran': env_note, 'verdict': rows[0][2] if rows else 'n/a',
+                          'runs': rows[0][3] if rows else []}
+            # first signature
+            rc, out = 0, ''
+            json.dump(meta, open(os.path.join(d, 'meta.json'), 'w'), indent=1)
+        vt = meta.get('vt', {})
+        lines.append('| %s | %s | %s | %s | %s | %s |' % (name, meta['property'], str(meta.get('needs', ''))[:160].replace('|', '/').replace('\n', ' '),
+                                                     vt.get('confirmed'), vt.get('verdict'), str(vt.get('signature', ''))[:120]))
+    open(os.path.join(base, 'RESULTS.md'), 'w').write('\n'.join(lines) + '\n')
+    print('\n'.join(lines))
+
+
 if __name__ == '__main__':
     cmd = sys.argv[1]
+    if cmd == 'record':
+        record(sys.argv[2:] or None)
+        sys.exit(0)
     if cmd == 'verify':
         verify(sys.argv[2])
     elif cmd == 'detect':
